@@ -461,57 +461,41 @@ theorem set_cases (s : State) (k : Nat) (v : BS) (cond : SetCond) (e : SetExp) (
         have ho : oldStrReply s k = .nil := by simp [oldStrReply, lookupStr, hg]
         cases cond <;> cases g <;> simp [hw, ho, hg, applied, Reply.isError, Reply.ok, hp]
 
-/-- the options of SET whose deadline the recorder sees -/
-def expRecorded (e : SetExp) (old : Option Nat) : Prop :=
-  match e with
-  | .exat _ | .pxat _ => False
-  | .keepttl => old = none
-  | _ => True
+theorem ttlMs_insert (s : State) (k : Nat) (e : Entry) : ttlMs (NMap.insert k e s) k = e.dl := by
+  simp [ttlMs, oldDl, NMap.get_insert]
 
-theorem plan_rel (unitSec : Bool) (v : Int) (old : Option Nat)
-    (hp : planOfOpt (absDeadline 0 unitSec true v) ≠ .invalid) :
-    planDl (planOfOpt (absDeadline 0 unitSec true v)) old =
-        some (if unitSec then v * 1000 else v).toNat ∧
-      0 < (if unitSec then v * 1000 else v).toNat := by
-  cases hd : absDeadline 0 unitSec true v with
-  | none => rw [hd] at hp; simp [planOfOpt] at hp
-  | some d =>
-    simp only [planOfOpt, planDl]
+/-- a deadline computed by `getExpireMillisecondsOrReply` at instant 0 is positive -/
+theorem plan_pos (unitSec relative : Bool) (v : Int) (old : Option Nat) :
+    ∀ d, planDl (planOfOpt (absDeadline 0 unitSec relative v)) old = some d → 0 < d := by
+  intro d hpd
+  cases hd : absDeadline 0 unitSec relative v with
+  | none => rw [hd] at hpd; simp [planOfOpt, planDl] at hpd
+  | some d0 =>
+    rw [hd] at hpd
+    simp only [planOfOpt, planDl, Option.some.injEq] at hpd
+    subst hpd
     unfold absDeadline at hd
     by_cases h1 : v ≤ 0
     · simp [h1] at hd
     · simp only [h1, if_false] at hd
       by_cases h2 : (unitSec && decide (v > i64MaxDiv1000)) = true
       · simp [h2] at hd
-      · simp only [h2, if_false, Int.natCast_zero, Int.add_zero, if_true] at hd
+      · simp only [h2, if_false, Int.natCast_zero, Int.add_zero, ite_self] at hd
         by_cases h3 : (if unitSec = true then v * 1000 else v) > i64Max
         · simp [h3] at hd
         · simp [h3] at hd
           subst hd
-          refine ⟨rfl, ?_⟩
           cases unitSec <;> simp <;> omega
 
-theorem plan_eq (e : SetExp) (old : Option Nat) (hp : setPlan 0 e ≠ .invalid)
-    (he : expRecorded e old) (hold : ∀ d, old = some d → 0 < d) :
-    planDl (setPlan 0 e) old = setExpiryMs e ∧ ∀ d, planDl (setPlan 0 e) old = some d → 0 < d := by
+theorem setplan_pos (e : SetExp) (old : Option Nat) (hold : ∀ d, old = some d → 0 < d) :
+    ∀ d, planDl (setPlan 0 e) old = some d → 0 < d := by
   cases e with
-  | none => simp [setPlan, planDl, setExpiryMs]
-  | keepttl =>
-    simp only [expRecorded] at he
-    subst he
-    simp [setPlan, planDl, setExpiryMs]
-  | ex v =>
-    have := plan_rel true v old hp
-    simp only [setPlan, setExpiryMs, if_true] at this ⊢
-    rw [this.1]
-    exact ⟨rfl, fun d hd => by cases hd; exact this.2⟩
-  | px v =>
-    have := plan_rel false v old hp
-    simp only [setPlan, setExpiryMs] at this ⊢
-    rw [this.1]
-    exact ⟨rfl, fun d hd => by cases hd; exact this.2⟩
-  | exat v => exact absurd he (by simp [expRecorded])
-  | pxat v => exact absurd he (by simp [expRecorded])
+  | none => intro d hd; simp [setPlan, planDl] at hd
+  | keepttl => intro d hd; simp only [setPlan, planDl] at hd; exact hold d hd
+  | ex v => exact plan_pos true true v old
+  | px v => exact plan_pos false true v old
+  | exat v => exact plan_pos true false v old
+  | pxat v => exact plan_pos false false v old
 
 /-- the node invariant on a dead-entry-free executor state -/
 structure Ok (s : State) (rs : Shard) : Prop where
@@ -546,29 +530,29 @@ theorem live_of_pos (v : Value) (dl : Option Nat) (h : ∀ d, dl = some d → 0 
   | none => rfl
   | some d => exact (live_some_iff v d).mpr (h d rfl)
 
+/-- SET with any option: the recorder replicates the deadline the executor holds afterwards -/
 theorem ok_set {s : State} {rs : Shard} (h : Ok s rs) (k : Nat) (v : BS) (cond : SetCond)
-    (e : SetExp) (g : Bool) (he : expRecorded e (oldDl s k)) :
+    (e : SetExp) (g : Bool) :
     Ok (exec s 0 (.set k v cond e g)).1 (clientRs rs s (.set k v cond e g)) := by
   refine ⟨inv_exec h.inv 0 _, ?_, ?_, ?_⟩ <;> simp only [clientRs, exec] <;>
     rcases set_cases s k v cond e g with ⟨ha, hs⟩ | ⟨ha, hp, hs⟩
   · rw [hs]; exact h.nodead
   · rw [hs]
-    exact nodead_insert h.nodead
-      (live_of_pos _ _ (plan_eq e _ hp he (oldDl_pos h.nodead k)).2)
+    exact nodead_insert h.nodead (live_of_pos _ _ (setplan_pos e _ (oldDl_pos h.nodead k)))
   · simp only [ha]; exact h.wf
   · have hrec : (record rs (execSet s 0 k v cond e g).1 (.set k v cond e g)).1 =
-        (rs.recordWrite k v (setExpiryMs e)).1 := by
+        (rs.recordWrite k v (planDl (setPlan 0 e) (oldDl s k))).1 := by
       rw [hs]
-      cases cond <;> simp [record, writeDelta, strAt, NMap.get_insert]
+      cases cond <;> simp [record, writeDelta, strAt, ttlMs_insert, NMap.get_insert]
     simp only [ha, if_true, hrec]
     exact nodewf_write k v _ h.wf
   · simp only [ha]; rw [hs]; exact h.srv
   · have hrec : (record rs (execSet s 0 k v cond e g).1 (.set k v cond e g)).1 =
-        (rs.recordWrite k v (setExpiryMs e)).1 := by
+        (rs.recordWrite k v (planDl (setPlan 0 e) (oldDl s k))).1 := by
       rw [hs]
-      cases cond <;> simp [record, writeDelta, strAt, NMap.get_insert]
+      cases cond <;> simp [record, writeDelta, strAt, ttlMs_insert, NMap.get_insert]
     simp only [ha, if_true, hrec]
-    rw [hs, (plan_eq e _ hp he (oldDl_pos h.nodead k)).1]
+    rw [hs]
     exact srv_write k v _ h.srv
 
 /-! ### INCR / DECR / INCRBY / DECRBY / APPEND / GETSET -/
@@ -577,35 +561,39 @@ theorem ok_strmod {s : State} {rs : Shard} (h : Ok s rs) (c : Cmd) (k : Nat)
     (happ : ∀ r, applied c r = !r.isError)
     (hrec : ∀ post, record rs post c =
       (match strAt post k with
-       | some b => writeDelta rs k b none
+       | some b => writeDelta rs k b (ttlMs post k)
        | none => (rs, none)))
     (hshape : ((exec s 0 c).2.isError = true ∧ (exec s 0 c).1 = s) ∨
       ((exec s 0 c).2.isError = false ∧
-        ∃ b, (exec s 0 c).1 = NMap.insert k { val := .str b, dl := none } s)) :
+        ∃ b dl, (exec s 0 c).1 = NMap.insert k { val := .str b, dl := dl } s ∧
+          ∀ d, dl = some d → 0 < d)) :
     Ok (exec s 0 c).1 (clientRs rs s c) := by
-  rcases hshape with ⟨he, hs⟩ | ⟨he, b, hs⟩
+  rcases hshape with ⟨he, hs⟩ | ⟨he, b, dl, hs, hpos⟩
   · have : clientRs rs s c = rs := by simp [clientRs, happ, he]
     rw [this, hs]; exact h
   · have hst : strAt (exec s 0 c).1 k = some b := by rw [hs]; simp [strAt, NMap.get_insert]
-    have : clientRs rs s c = (rs.recordWrite k b none).1 := by
-      simp [clientRs, happ, he, hrec, hst, writeDelta]
+    have htt : ttlMs (exec s 0 c).1 k = dl := by rw [hs]; exact ttlMs_insert ..
+    have : clientRs rs s c = (rs.recordWrite k b dl).1 := by
+      simp [clientRs, happ, he, hrec, hst, htt, writeDelta]
     rw [this]
-    refine ⟨inv_exec h.inv 0 c, ?_, nodewf_write k b none h.wf, ?_⟩
-    · rw [hs]; exact nodead_insert h.nodead (live_none _)
-    · rw [hs]; exact srv_write k b none h.srv
+    refine ⟨inv_exec h.inv 0 c, ?_, nodewf_write k b dl h.wf, ?_⟩
+    · rw [hs]; exact nodead_insert h.nodead (live_of_pos _ _ hpos)
+    · rw [hs]; exact srv_write k b dl h.srv
 
-theorem incrBy_shape (s : State) (k : Nat) (d : Int) (hd : oldDl s k = none) :
+theorem incrBy_shape {s : State} (hN : NoDead s) (k : Nat) (d : Int) :
     ((execIncrBy s k d).2.isError = true ∧ (execIncrBy s k d).1 = s) ∨
     ((execIncrBy s k d).2.isError = false ∧
-      ∃ b, (execIncrBy s k d).1 = NMap.insert k { val := .str b, dl := none } s) := by
+      ∃ b dl, (execIncrBy s k d).1 = NMap.insert k { val := .str b, dl := dl } s ∧
+        ∀ x, dl = some x → 0 < x) := by
   unfold execIncrBy
-  unfold oldDl at hd
   cases hg : NMap.get s k with
-  | none => right; simp only [lookupStr, hg]; exact ⟨by simp [Reply.isError], _, rfl⟩
+  | none =>
+    right; simp only [lookupStr, hg]
+    exact ⟨by simp [Reply.isError], _, none, rfl, fun _ hx => by cases hx⟩
   | some e =>
     obtain ⟨val, dl⟩ := e
-    simp only [hg] at hd
-    subst hd
+    have hpos : ∀ x, dl = some x → 0 < x := fun x hx => by
+      subst hx; exact (live_some_iff val x).mp (nodead_get hN hg)
     cases val with
     | str b =>
       simp only [lookupStr, hg]
@@ -614,67 +602,75 @@ theorem incrBy_shape (s : State) (k : Nat) (d : Int) (hd : oldDl s k = none) :
       | some v =>
         simp only
         split
-        · right; exact ⟨by simp [Reply.isError], _, rfl⟩
+        · right; exact ⟨by simp [Reply.isError], _, dl, rfl, hpos⟩
         · left; simp [Reply.isError]
     | _ => left; simp [lookupStr, hg, Reply.isError]
 
-theorem decrBy_shape (s : State) (k : Nat) (d : Int) (hd : oldDl s k = none) :
+theorem decrBy_shape {s : State} (hN : NoDead s) (k : Nat) (d : Int) :
     ((execDecrBy s k d).2.isError = true ∧ (execDecrBy s k d).1 = s) ∨
     ((execDecrBy s k d).2.isError = false ∧
-      ∃ b, (execDecrBy s k d).1 = NMap.insert k { val := .str b, dl := none } s) := by
+      ∃ b dl, (execDecrBy s k d).1 = NMap.insert k { val := .str b, dl := dl } s ∧
+        ∀ x, dl = some x → 0 < x) := by
   unfold execDecrBy
   split
   · left; simp [Reply.isError]
-  · exact incrBy_shape s k (-d) hd
+  · exact incrBy_shape hN k (-d)
 
-theorem append_shape (s : State) (k : Nat) (v : BS) (hd : oldDl s k = none) :
+theorem append_shape {s : State} (hN : NoDead s) (k : Nat) (v : BS) :
     ((execAppend s k v).2.isError = true ∧ (execAppend s k v).1 = s) ∨
     ((execAppend s k v).2.isError = false ∧
-      ∃ b, (execAppend s k v).1 = NMap.insert k { val := .str b, dl := none } s) := by
+      ∃ b dl, (execAppend s k v).1 = NMap.insert k { val := .str b, dl := dl } s ∧
+        ∀ x, dl = some x → 0 < x) := by
   unfold execAppend
-  unfold oldDl at hd
   cases hg : NMap.get s k with
-  | none => right; simp only [lookupStr, hg]; exact ⟨by simp [Reply.isError], _, rfl⟩
+  | none =>
+    right; simp only [lookupStr, hg]
+    exact ⟨by simp [Reply.isError], _, none, rfl, fun _ hx => by cases hx⟩
   | some e =>
     obtain ⟨val, dl⟩ := e
-    simp only [hg] at hd
-    subst hd
+    have hpos : ∀ x, dl = some x → 0 < x := fun x hx => by
+      subst hx; exact (live_some_iff val x).mp (nodead_get hN hg)
     cases val with
-    | str b => right; simp only [lookupStr, hg]; exact ⟨by simp [Reply.isError], _, rfl⟩
+    | str b => right; simp only [lookupStr, hg]; exact ⟨by simp [Reply.isError], _, dl, rfl, hpos⟩
     | _ => left; simp [lookupStr, hg, Reply.isError]
 
 theorem getset_shape (s : State) (k : Nat) (v : BS) :
     ((execGetSet s k v).2.isError = true ∧ (execGetSet s k v).1 = s) ∨
     ((execGetSet s k v).2.isError = false ∧
-      ∃ b, (execGetSet s k v).1 = NMap.insert k { val := .str b, dl := none } s) := by
+      ∃ b dl, (execGetSet s k v).1 = NMap.insert k { val := .str b, dl := dl } s ∧
+        ∀ x, dl = some x → 0 < x) := by
   unfold execGetSet
   cases hg : NMap.get s k with
-  | none => right; simp only [lookupStr, hg]; exact ⟨by simp [Reply.isError], _, rfl⟩
+  | none =>
+    right; simp only [lookupStr, hg]
+    exact ⟨by simp [Reply.isError], _, none, rfl, fun _ hx => by cases hx⟩
   | some e =>
     obtain ⟨val, dl⟩ := e
     cases val with
-    | str b => right; simp only [lookupStr, hg]; exact ⟨by simp [Reply.isError], _, rfl⟩
+    | str b =>
+      right; simp only [lookupStr, hg]
+      exact ⟨by simp [Reply.isError], _, none, rfl, fun _ hx => by cases hx⟩
     | _ => left; simp [lookupStr, hg, Reply.isError]
 
-theorem ok_incr {s : State} {rs : Shard} (h : Ok s rs) (k : Nat) (hd : oldDl s k = none) :
+theorem ok_incr {s : State} {rs : Shard} (h : Ok s rs) (k : Nat) :
     Ok (exec s 0 (.incr k)).1 (clientRs rs s (.incr k)) :=
-  ok_strmod h (.incr k) k (fun r => by cases hr : r.isError <;> simp [applied, hr]) (fun _ => rfl) (incrBy_shape s k 1 hd)
+  ok_strmod h (.incr k) k (fun r => by cases hr : r.isError <;> simp [applied, hr]) (fun _ => rfl) (incrBy_shape h.nodead k 1)
 
-theorem ok_decr {s : State} {rs : Shard} (h : Ok s rs) (k : Nat) (hd : oldDl s k = none) :
+theorem ok_decr {s : State} {rs : Shard} (h : Ok s rs) (k : Nat) :
     Ok (exec s 0 (.decr k)).1 (clientRs rs s (.decr k)) :=
-  ok_strmod h (.decr k) k (fun r => by cases hr : r.isError <;> simp [applied, hr]) (fun _ => rfl) (incrBy_shape s k (-1) hd)
+  ok_strmod h (.decr k) k (fun r => by cases hr : r.isError <;> simp [applied, hr]) (fun _ => rfl) (incrBy_shape h.nodead k (-1))
 
-theorem ok_incrby {s : State} {rs : Shard} (h : Ok s rs) (k : Nat) (d : Int) (hd : oldDl s k = none) :
+theorem ok_incrby {s : State} {rs : Shard} (h : Ok s rs) (k : Nat) (d : Int) :
     Ok (exec s 0 (.incrby k d)).1 (clientRs rs s (.incrby k d)) :=
-  ok_strmod h (.incrby k d) k (fun r => by cases hr : r.isError <;> simp [applied, hr]) (fun _ => rfl) (incrBy_shape s k d hd)
+  ok_strmod h (.incrby k d) k (fun r => by cases hr : r.isError <;> simp [applied, hr]) (fun _ => rfl) (incrBy_shape h.nodead k d)
 
-theorem ok_decrby {s : State} {rs : Shard} (h : Ok s rs) (k : Nat) (d : Int) (hd : oldDl s k = none) :
+theorem ok_decrby {s : State} {rs : Shard} (h : Ok s rs) (k : Nat) (d : Int) :
     Ok (exec s 0 (.decrby k d)).1 (clientRs rs s (.decrby k d)) :=
-  ok_strmod h (.decrby k d) k (fun r => by cases hr : r.isError <;> simp [applied, hr]) (fun _ => rfl) (decrBy_shape s k d hd)
+  ok_strmod h (.decrby k d) k (fun r => by cases hr : r.isError <;> simp [applied, hr]) (fun _ => rfl) (decrBy_shape h.nodead k d)
 
-theorem ok_append {s : State} {rs : Shard} (h : Ok s rs) (k : Nat) (v : BS) (hd : oldDl s k = none) :
+theorem ok_append {s : State} {rs : Shard} (h : Ok s rs) (k : Nat) (v : BS) :
     Ok (exec s 0 (.append k v)).1 (clientRs rs s (.append k v)) :=
-  ok_strmod h (.append k v) k (fun r => by cases hr : r.isError <;> simp [applied, hr]) (fun _ => rfl) (append_shape s k v hd)
+  ok_strmod h (.append k v) k (fun r => by cases hr : r.isError <;> simp [applied, hr]) (fun _ => rfl) (append_shape h.nodead k v)
 
 theorem ok_getset {s : State} {rs : Shard} (h : Ok s rs) (k : Nat) (v : BS) :
     Ok (exec s 0 (.getset k v)).1 (clientRs rs s (.getset k v)) :=
@@ -1085,10 +1081,19 @@ theorem hdelAll_nil_right (h : MHash) : (hdelAll h []).1 = h := rfl
 theorem isEmpty_eq_true_iff {α : Type} (l : List α) : l.isEmpty = true ↔ l = [] := by
   cases l <;> simp
 
+/-- `rematHash` after the type check -/
+def rematHash2 (e0 : State) (k : Nat) (h : NMap Lww) : State :=
+  let e1 := if (liveFields h).isEmpty then e0 else (execStep e0 (.hset k (liveFields h))).1
+  if (tombFields h).isEmpty then e1 else (execStep e1 (.hdel k (tombFields h))).1
+
+theorem rematHash_eq (s : State) (k : Nat) (h : NMap Lww) :
+    rematHash s k h =
+      rematHash2 (if nonHashAt s k then (execStep s (.del [k])).1 else s) k h := rfl
+
 theorem rematHash_spec {s : State} {k : Nat} {hx : MHash} (hI : Inv s) (hN : NoDead s)
     (hwx : NMap.WF hx) (hg : NMap.get s k = cellEntry hx) (hm : NMap Lww) :
-    Inv (rematHash s k hm) ∧ NoDead (rematHash s k hm) ∧
-    ∀ k', NMap.get (rematHash s k hm) k' =
+    Inv (rematHash2 s k hm) ∧ NoDead (rematHash2 s k hm) ∧
+    ∀ k', NMap.get (rematHash2 s k hm) k' =
       if k' = k then cellEntry (hdelAll (hsetAll hx (liveFields hm)).1 (tombFields hm)).1
       else NMap.get s k' := by
   -- after the HSET
@@ -1110,7 +1115,7 @@ theorem rematHash_spec {s : State} {k : Nat} {hx : MHash} (hI : Inv s) (hN : NoD
       exact ⟨inv_putHash hI k (wf_hsetAll hwx _) none, nodead_putHash hN k _, get_putHash hI.1 k _⟩
   obtain ⟨e1, he1, hI1, hN1, hg1⟩ := h1
   have hgk : NMap.get e1 k = cellEntry (hsetAll hx (liveFields hm)).1 := by simpa using hg1 k
-  simp only [rematHash]
+  simp only [rematHash2]
   rw [← he1]
   by_cases ht : (tombFields hm).isEmpty = true
   · simp only [ht, if_true]
@@ -1186,41 +1191,84 @@ theorem merged_hash_sub {rs : Shard} {k : Nat} {d : RV} {hm : NMap Lww} (hW : rs
     | gset s => rfl
     | orset e n => rfl
 
-theorem cell_of_hash_view {s : State} {rs : Shard} (h : SrvK s rs.keys) (k : Nat)
-    (hnw : ∀ (x : Unit), lookupHash s k = .wrong → False) :
-    NMap.get s k = cellEntry (liveFields (rsHash rs k)) := by
-  rcases hash_view h k with ⟨_, hg, hlive⟩ | ⟨hh, _, hg, hlive, hne⟩ | hl
-  · rw [hg, hlive]; rfl
-  · rw [hg, hlive]
-    cases hh with
-    | nil => exact absurd rfl hne
-    | cons p l => rfl
-  · exact absurd hl (hnw ())
+theorem nonHashAt_of_cell {s : State} {k : Nat} {hx : MHash} (hg : NMap.get s k = cellEntry hx) :
+    nonHashAt s k = false := by
+  cases hx with
+  | nil => simp only [cellEntry] at hg; simp [nonHashAt, hg]
+  | cons p l => simp only [cellEntry] at hg; simp [nonHashAt, hg]
+
+theorem nonHashAt_of_wrong {s : State} {k : Nat} (h : lookupHash s k = .wrong) :
+    nonHashAt s k = true := by
+  simp only [lookupHash] at h
+  simp only [nonHashAt]
+  cases hg : NMap.get s k with
+  | none => simp [hg] at h
+  | some e =>
+    obtain ⟨val, dl⟩ := e
+    cases val <;> simp_all
 
 theorem ok_deliver_hash {s : State} {rs : Shard} (h : Ok s rs) (k : Nat) (d : RV) (hd : d.WF)
     (hm : NMap Lww) (hc : (mergedVal rs k d).crdt = .hash hm)
-    (hprop : hm.all (fun p => Lww.proper p.2) = true)
-    (hnw : ∀ (x : Unit), lookupHash s k = .wrong → False) :
+    (hprop : hm.all (fun p => Lww.proper p.2) = true) :
     Ok (rematerialise s k (mergedVal rs k d)) (rs.applyRemote k d) := by
   have hwm : NMap.WF hm := by
     have := (mergedVal_wf k d h.wf hd).1
     rw [hc] at this; exact this
   have hwx : NMap.WF (liveFields (rsHash rs k)) := wf_liveFields (wf_rsHash h.wf k)
-  have hcell := cell_of_hash_view h.srv k hnw
-  obtain ⟨hI, hN, hg⟩ := rematHash_spec h.inv h.nodead hwx hcell hm
-  have hfields := remat_fields hwx hwm
-    (fun p hp => by simpa using (List.all_eq_true.mp hprop) p hp)
-    (fun f hf => by
+  have hpr : ∀ p ∈ hm, Lww.proper p.2 = true :=
+    fun p hp => by simpa using (List.all_eq_true.mp hprop) p hp
+  simp only [rematerialise, hc, rematHash_eq]
+  rcases hash_view h.srv k with ⟨_, hg, hlive⟩ | ⟨hh, _, hg, hlive, hne⟩ | hl
+  · -- no key: nothing to delete
+    have hcell : NMap.get s k = cellEntry (liveFields (rsHash rs k)) := by rw [hg, hlive]; rfl
+    rw [nonHashAt_of_cell hcell]
+    simp only [Bool.false_eq_true, if_false]
+    obtain ⟨hI, hN, hgk⟩ := rematHash_spec h.inv h.nodead hwx hcell hm
+    have hfields := remat_fields hwx hwm hpr (fun f hf => by
       rw [get_liveFields (wf_rsHash h.wf k), merged_hash_sub h.wf hd hc f hf]; rfl)
-  simp only [rematerialise, hc]
-  refine ⟨hI, hN, nodewf_remote' k d h.wf hd, ?_⟩
-  rw [keys_remote]
-  intro k'
-  rw [hg k', NMap.get_insert]
-  by_cases hk : k' = k
-  · simp only [hk, if_true]
-    rw [hfields, matE_hash _ hm hc]
-  · simp only [hk, if_false]
-    exact h.srv k'
+    refine ⟨hI, hN, nodewf_remote' k d h.wf hd, ?_⟩
+    rw [keys_remote]
+    intro k'
+    rw [hgk k', NMap.get_insert]
+    by_cases hk : k' = k
+    · simp only [hk, if_true]; rw [hfields, matE_hash _ hm hc]
+    · simp only [hk, if_false]; exact h.srv k'
+  · -- a hash: merged in place
+    have hcell : NMap.get s k = cellEntry (liveFields (rsHash rs k)) := by
+      rw [hg, hlive]
+      cases hh with
+      | nil => exact absurd rfl hne
+      | cons p l => rfl
+    rw [nonHashAt_of_cell hcell]
+    simp only [Bool.false_eq_true, if_false]
+    obtain ⟨hI, hN, hgk⟩ := rematHash_spec h.inv h.nodead hwx hcell hm
+    have hfields := remat_fields hwx hwm hpr (fun f hf => by
+      rw [get_liveFields (wf_rsHash h.wf k), merged_hash_sub h.wf hd hc f hf]; rfl)
+    refine ⟨hI, hN, nodewf_remote' k d h.wf hd, ?_⟩
+    rw [keys_remote]
+    intro k'
+    rw [hgk k', NMap.get_insert]
+    by_cases hk : k' = k
+    · simp only [hk, if_true]; rw [hfields, matE_hash _ hm hc]
+    · simp only [hk, if_false]; exact h.srv k'
+  · -- another type: deleted first, then the hash is built from nothing
+    rw [nonHashAt_of_wrong hl]
+    simp only [if_true]
+    rw [execStep_of_nodead h.nodead, exec_del1 h.inv.1]
+    have hcell : NMap.get (NMap.erase k s) k = cellEntry [] := by
+      rw [NMap.get_erase h.inv.1]; simp [cellEntry]
+    obtain ⟨hI, hN, hgk⟩ :=
+      rematHash_spec (inv_erase h.inv) (nodead_erase h.nodead) NMap.wf_nil hcell hm
+    have hfields := remat_fields (hx := []) NMap.wf_nil hwm hpr (fun _ _ => rfl)
+    refine ⟨hI, hN, nodewf_remote' k d h.wf hd, ?_⟩
+    rw [keys_remote]
+    intro k'
+    rw [hgk k', NMap.get_insert]
+    by_cases hk : k' = k
+    · simp only [hk, if_true]; rw [hfields, matE_hash _ hm hc]
+    · simp only [hk, if_false]
+      rw [NMap.get_erase h.inv.1]
+      simp only [hk, if_false]
+      exact h.srv k'
 
 end RedisVerif.Glue
